@@ -157,15 +157,22 @@ func present(r *rig.Rig, k caller, initiator string, form url.Values) (auth stri
 	if k.owner == "other" {
 		owner = otherFor(k.method, initiator)
 	}
+	cid := ""
 	switch k.cid {
 	case "own":
-		p.formCID = owner
+		cid = owner
 	case "init":
-		p.formCID = initiator
+		cid = initiator
 	case "unknown":
-		p.formCID = "ghost"
+		cid = "ghost"
 	}
-	switch k.method {
+	return presentAs(r, k.method, owner, cid, form)
+}
+
+// presentAs: owner's (valid) credentials in the given method, plus form client_id = cid ("" = none).
+func presentAs(r *rig.Rig, method, owner, cid string, form url.Values) (auth string, p presented) {
+	p.formCID = cid
+	switch method {
 	case "basic":
 		auth = rig.Basic(owner, secretOf(r, owner))
 		p.basicUser, p.secretOK = owner, true
@@ -185,6 +192,18 @@ func present(r *rig.Rig, k caller, initiator string, form url.Values) (auth stri
 		form.Set("client_id", p.formCID)
 	}
 	return auth, p
+}
+
+// identify: the client a request speaks for. Authenticated identity first (assertion issuer,
+// Basic user), otherwise the client_id parameter (authenticated when a body secret matches it).
+func identify(p presented) (id string, authenticated bool) {
+	switch {
+	case p.assertIss != "":
+		return p.assertIss, true
+	case p.basicUser != "":
+		return p.basicUser, p.secretOK
+	}
+	return p.formCID, p.formCID != "" && p.formSecret != "" && p.secretOK
 }
 
 // verdict of the statement on one presentation, for a flow started by initiator.
